@@ -8,7 +8,7 @@
     lr.Parser.Parse / ParseAndBuildAST, for every grammar, table and input. *)
 From Coq Require Import List ZArith.
 From Algo.Grammar Require Import CFG.
-From Algo.C11 Require Import Model ModelPrec ModelSLR ModelLR1 Spec Proofs ProofsTerm ProofsOracle ProofsPrec ProofsPrecExpr ProofsLR0 ProofsSLR.
+From Algo.C11 Require Import Model ModelPrec ModelSLR ModelLR1 Spec Proofs ProofsTerm ProofsOracle ProofsPrec ProofsPrecExpr ProofsLR0 ProofsSLR ProofsCLR.
 Import ListNotations.
 
 (** Soundness of the driver over any certified table: if [Parse] accepts [w] then [w] is a
@@ -196,6 +196,33 @@ Proof.
   destruct (C11_driver_sound G tbl lbl f w evs OK Hp) as [H1 [H2 [_ [_ [H3 H4]]]]]. auto.
 Qed.
 
+(** The same for the modelled canonical LR(1) construction (LR(1) closure with FIRST(beta a),
+    GOTO, canonical collection, reduce on the item's lookahead, ResolveConflicts). *)
+Theorem C11_clr_construction_ok :
+  forall (G : gram) (fuel : nat) (ls : levels) (tbl : table),
+    (forall p c, In p (prods G) -> In (Tm c) (body p) -> In c (terms G)) ->
+    build_clr fuel G ls = BuiltOk tbl ->
+    exists lbl, table_ok G tbl lbl = true.
+Proof.
+  intros G fuel ls tbl Hvalid H.
+  destruct (canonical1 fuel G) as [C|] eqn:EC.
+  - exists (map lp1 C). exact (clr_table_ok G Hvalid fuel C EC ls tbl H).
+  - unfold build_clr, finish, clr_raw in H. rewrite EC in H. discriminate.
+Qed.
+
+Corollary C11_clr_parser_sound :
+  forall (G : gram) (fuel : nat) (ls : levels) (tbl : table) (f : nat) (w : list nat) (evs : list event),
+    (forall p c, In p (prods G) -> In (Tm c) (body p) -> In c (terms G)) ->
+    build_clr fuel G ls = BuiltOk tbl ->
+    parse f tbl w = Accepted evs ->
+    L G w /\ rightmost_reverse G (prods_of evs) w /\
+    yield (ast_of evs) = map Some w /\ postorder (ast_of evs) = prods_of evs.
+Proof.
+  intros G fuel ls tbl f w evs Hvalid Hb Hp.
+  destruct (C11_clr_construction_ok G fuel ls tbl Hvalid Hb) as [lbl OK].
+  destruct (C11_driver_sound G tbl lbl f w evs OK Hp) as [H1 [H2 [_ [_ [H3 H4]]]]]. auto.
+Qed.
+
 (** Witness checker for long sentences: a production sequence accepted by [lm_check] is a
     leftmost derivation of the string. *)
 Theorem C11_witness_sound :
@@ -252,8 +279,8 @@ Qed.
     constructions on S -> a b a | S S a build conflict-free tables with 11, 11 and 17 ACTION entries. *)
 Example C11_example_constructions :
   (match build_slr 50 d11a_G [] with BuiltOk t => length (t_action t) | _ => 0 end,
-   match ModelLR1.build_lalr 50 d11a_G [] with BuiltOk t => length (t_action t) | _ => 0 end,
-   match ModelLR1.build_clr 50 d11a_G [] with BuiltOk t => length (t_action t) | _ => 0 end) = (11, 11, 17).
+   match build_lalr 50 d11a_G [] with BuiltOk t => length (t_action t) | _ => 0 end,
+   match build_clr 50 d11a_G [] with BuiltOk t => length (t_action t) | _ => 0 end) = (11, 11, 17).
 Proof. vm_compute. reflexivity. Qed.
 
 Print Assumptions C11_driver_sound.
@@ -268,4 +295,6 @@ Print Assumptions C11_lr0_access_strings.
 Print Assumptions C11_witness_sound.
 Print Assumptions C11_slr_construction_ok.
 Print Assumptions C11_slr_parser_sound.
+Print Assumptions C11_clr_construction_ok.
+Print Assumptions C11_clr_parser_sound.
 Print Assumptions C11_d11a_unrepaired_table_refuted.
